@@ -133,6 +133,8 @@ type jQuery struct {
 	Until       XTime    `json:"until"`
 	HasAsOf     bool     `json:"has_asof"`
 	HasUntil    bool     `json:"has_until"`
+	AsOfOff     int64    `json:"asof_off,omitempty"`  // non-zero: ASOF is written relative to the database clock ('-8s'); AsOf is ignored
+	UntilOff    int64    `json:"until_off,omitempty"` // likewise for UNTIL
 	Where       *XPred   `json:"where,omitempty"`
 	Having      string   `json:"having,omitempty"`
 	Order       []jOrder `json:"order,omitempty"`
@@ -214,9 +216,17 @@ func (q *jQuery) SQL(table string, conds []*XPred) string {
 	}
 	s := fmt.Sprintf("SELECT %s FROM %s", sel, table)
 	if q.HasAsOf {
-		s += fmt.Sprintf(" ASOF '%s'", fmtTime(q.AsOf.T()))
+		if q.AsOfOff != 0 {
+			s += fmt.Sprintf(" ASOF '%s'", time.Duration(q.AsOfOff).String())
+		} else {
+			s += fmt.Sprintf(" ASOF '%s'", fmtTime(q.AsOf.T()))
+		}
 		if q.HasUntil {
-			s += fmt.Sprintf(" UNTIL '%s'", fmtTime(q.Until.T()))
+			if q.UntilOff != 0 {
+				s += fmt.Sprintf(" UNTIL '%s'", time.Duration(q.UntilOff).String())
+			} else {
+				s += fmt.Sprintf(" UNTIL '%s'", fmtTime(q.Until.T()))
+			}
 		}
 	}
 	if q.Where != nil {
